@@ -57,6 +57,30 @@ def absorb(rep, scratch):
         rep.note(x)
 
 
+def check_register_numbers(rep, facts):
+    """R13.1: numeric register spellings in any base.  Decided on the dataflow of lookup_register (lexrules); where that cannot
+    follow the operand (e.g. the conversion lives in a method of a register-file object) the verdict of the interpreted encoders
+    is used when the shared engine offers one (encsum.register_spellings_normalised)."""
+    try:
+        lexrules.check_register_numbers(rep, facts)
+        return
+    except AnalysisError as e:
+        from .. import encsum
+        decide = getattr(encsum, 'register_spellings_normalised', None)
+        if decide is None:
+            raise
+        why = str(e)
+    ok, offenders = decide(facts)
+    if ok is None:
+        raise AnalysisError(why + ' (and the interpreted encoders saw no register operand)')
+    node = facts.funcs.get('lookup_register')
+    rep.count('register table lookups analysed', 1)
+    rep.check(ok, 'R13.1.registers', 'numeric register spellings in any base go through int(., 0) (interpreted encoders)',
+              lambda: Finding('R13.1.registers', 'lookup_register', node if node is not None else 'lookup_register',
+                              'hex / binary register numbers are not normalised with int(., 0) before the table lookup for {}'.format(offenders[:6]),
+                              line=getattr(node, 'lineno', None)), nontrivial=False)
+
+
 def shared_engine_rules(rep, repo, facts):
     doc = repo.text['docs/instruction_reference.rst']
     scratch = Report(rep.prop, rep.level, '')
@@ -105,7 +129,7 @@ def run(repo, tier):
     lexrules.check_lexer(rep, facts)
     skips_blank = lexrules.check_reader(rep, facts)
     lexrules.check_handover(rep, facts, skips_blank)
-    lexrules.check_register_numbers(rep, facts)
+    check_register_numbers(rep, facts)
     try:
         shared_engine_rules(rep, repo, facts)
     except AnalysisError as e:
